@@ -105,9 +105,11 @@ func vPutElem(obj *json.Object, arr *json.Array, e int) {
 		t.Edit(0, 0, "abcd")
 		t.Edit(1, 2, "")
 		t.Style(0, 2, map[string]string{"b": "1"})
+		// values as SDKs store them: JSON-quoted strings, backslashes, empty
+		t.Style(1, 3, map[string]string{"color": "\"red\"", "path": "C:\\a", "e": ""})
 	case 12:
 		n := json.TreeNode{Type: "r", Children: []json.TreeNode{
-			{Type: "p", Attributes: map[string]string{"w": "1"}, Children: []json.TreeNode{{Type: "text", Value: "ab"}}},
+			{Type: "p", Attributes: map[string]string{"w": "1", "color": "\"red\"", "path": "C:\\a", "e": ""}, Children: []json.TreeNode{{Type: "text", Value: "a\"b"}}},
 			{Type: "p"},
 		}}
 		if arr != nil {
